@@ -32,7 +32,10 @@ def main(tier):
     for (prof, entry), recs in sorted(data.items()):
         seen = set()
         empties = set()
+        e2props.undecided(run, recs, prof)
         for rec in recs:
+            if rec["exit"] == "undecided" or "table" not in rec:
+                continue
             t, case = rec["table"], rec["case"][0]
             x = rec["case"][1] if len(rec["case"]) > 1 else None
             nt = (t, case, str(rec.get("result")))
